@@ -8,6 +8,7 @@ import (
 	"io"
 	"os"
 	"path"
+	"sync"
 	"time"
 
 	"github.com/gogo/protobuf/proto"
@@ -56,6 +57,34 @@ type Log interface {
 type store struct {
 	datadir string
 	log     commitlog.CommitLog
+	// mu keeps appends and reads of the log apart (see reader).
+	mu sync.RWMutex
+}
+
+// exclusiveReader is a cursor on the log whose calls never overlap an append.
+type exclusiveReader struct {
+	io.ReadSeeker
+	mu *sync.RWMutex
+}
+
+func (r *exclusiveReader) Read(p []byte) (int, error) {
+	r.mu.RLock()
+	defer r.mu.RUnlock()
+	return r.ReadSeeker.Read(p)
+}
+func (r *exclusiveReader) Seek(offset int64, whence int) (int64, error) {
+	r.mu.RLock()
+	defer r.mu.RUnlock()
+	return r.ReadSeeker.Seek(offset, whence)
+}
+
+// reader returns a cursor on the log. An append advances the record count of the active
+// segment and then the offset of the log; a cursor that reaches the end of the segment
+// in between takes the difference for a segment roll and reads the active segment again
+// from its start (the records are then handed over a second time, under offsets that are
+// not theirs). Reads therefore exclude appends.
+func (s *store) reader() io.ReadSeeker {
+	return &exclusiveReader{ReadSeeker: s.log.Reader(), mu: &s.mu}
 }
 
 func New(datadir string) (Log, error) {
@@ -68,7 +97,7 @@ func New(datadir string) (Log, error) {
 
 func (s *store) Close() error { return s.log.Close() }
 func (s *store) Get(offset uint64) (*packet.Publish, error) {
-	reader := s.log.Reader()
+	reader := s.reader()
 	reader.Seek(int64(offset), io.SeekStart)
 	entry, err := commitlog.NewDecoder(reader).Decode()
 	if err != nil {
@@ -78,12 +107,14 @@ func (s *store) Get(offset uint64) (*packet.Publish, error) {
 }
 
 func (s *store) Append(publish *packet.Publish) error {
+	s.mu.Lock()
+	defer s.mu.Unlock()
 	_, err := s.log.WriteEntry(uint64(time.Now().UnixNano()), mustEncode(publish))
 	return err
 }
 
 func (s *store) Stream(ctx context.Context, consumer stream.Consumer, f func(*packet.Publish) error) error {
-	reader := s.log.Reader()
+	reader := s.reader()
 	reader.Seek(0, io.SeekEnd)
 	return consumer.Consume(ctx, reader, func(c context.Context, b stream.Batch) error {
 		for _, record := range b.Records {
@@ -137,7 +168,7 @@ func (s *store) Consume(ctx context.Context, consumerName string, f func(uint64,
 	consumer := stream.NewConsumer(
 		stream.WithEOFBehaviour(stream.EOFBehaviourPoll),
 		stream.FromOffset(int64(offset)))
-	cursor := s.log.Reader()
+	cursor := s.reader()
 	s.maybeTruncate(offset)
 	return consumer.Consume(ctx, cursor, func(c context.Context, b stream.Batch) error {
 		for idx, record := range b.Records {
